@@ -213,7 +213,7 @@ def check(case, rec):
     import numpy
 
     if case.get("recipe"):
-        rec.note("large recipe case (N=%d)" % case["N"])
+        rec.note("large recipe case (N=%d)" % case["N"], "large rows " + str(case.get("rows")))
     case = Q.expand(case)
     dense = Q.dense_dims(case)
     N = case["N"]
